@@ -9,6 +9,7 @@ use crate::time::Instant;
 const MAX_ITEMS_STORED: usize = 500;
 
 /// Manages storage and expiration of contact information for a number of InfoHashs.
+#[cfg_attr(feature = "verif", derive(Clone))]
 pub struct AnnounceStorage {
     storage: HashMap<InfoHash, Vec<AnnounceItem>>,
     expires: Vec<ItemExpiration>,
@@ -133,6 +134,40 @@ impl AnnounceStorage {
                 self.storage.remove(&info_hash);
             }
         }
+    }
+}
+
+/// Verification hook: canonical view of the store (no behaviour).
+#[cfg(feature = "verif")]
+impl AnnounceStorage {
+    /// Expiry queue in order: (info hash, address, age of the entry).
+    pub fn verif_expires(&self) -> Vec<(InfoHash, SocketAddr, Duration)> {
+        let now = Instant::now();
+        self.expires
+            .iter()
+            .map(|e| (e.info_hash, e.address, now - e.inserted))
+            .collect()
+    }
+
+    /// Per-info-hash contact lists in list order: (info hash, address, age of the list entry),
+    /// sorted by info hash.
+    pub fn verif_storage(&self) -> Vec<(InfoHash, Vec<(SocketAddr, Duration)>)> {
+        let now = Instant::now();
+        let mut out: Vec<_> = self
+            .storage
+            .iter()
+            .map(|(hash, items)| {
+                (
+                    *hash,
+                    items
+                        .iter()
+                        .map(|i| (i.expiration.address, now - i.expiration.inserted))
+                        .collect(),
+                )
+            })
+            .collect();
+        out.sort_by_key(|(hash, _)| *hash);
+        out
     }
 }
 
